@@ -92,6 +92,27 @@ def run_case(ctx, case):
 def run(ctx):
     rng = ctx["rng"]
     run_case(ctx, ser(dict(kind="pair", U=[F(0), F(0), F(1, 2), F(1), F(1)], V=[F(0)] * 3 + [F(1, 3)] + [F(1)] * 3)))
+    for i in range(budget(ctx, 15, 200)):
+        # same degree, same distinct knots, same length — only the multiplicities are distributed differently
+        a, b = rand_interval(rng)
+        p = rng.randint(1, 3)
+        ks = [a + (b - a) * x for x in sorted(rng.sample(GRID, rng.randint(2, 3)))]
+        total = rng.randint(len(ks) + 1, len(ks) * (p + 1) - 1) if p + 1 > 1 else len(ks)
+
+        def spread():
+            m = [1] * len(ks)
+            for _ in range(total - len(ks)):
+                cand = [j for j in range(len(ks)) if m[j] < p + 1]
+                if not cand:
+                    break
+                m[rng.choice(cand)] += 1
+            return m
+        mu, mv = spread(), spread()
+        if mu == mv or sum(mu) != sum(mv):
+            continue
+        U = [a] * (p + 1) + [k for k, m in zip(ks, mu) for _ in range(m)] + [b] * (p + 1)
+        V = [a] * (p + 1) + [k for k, m in zip(ks, mv) for _ in range(m)] + [b] * (p + 1)
+        run_case(ctx, ser(dict(kind="pair", U=U, V=V)))
     for i in range(budget(ctx, 100, 1500)):
         interval = rand_interval(rng)
         p = rng.randint(0, 3)
